@@ -125,6 +125,7 @@ def run(ctx, res):
         st0.see(text, nontrivial=True)
         B.check_program(res, "regressions", st0, {"text": text}, text, status, bas, {"structure", "reference"})
     real_programs(ctx, res)
+    B.conv_cli_stream(ctx, res, ctx.n(60, 800))
     res.rule = ("numbered ASCII listings generated from the full keyword vocabulary (every keyword at least 3 times), identifiers that "
                 "contain no keyword, numbers, string literals (unterminated, containing keywords), any spacing, line numbers 1..65535, "
                 "0..n lines; non-trivial = holds a keyword; distinct by text")
